@@ -163,6 +163,7 @@ def main():
         ck.finish()
     ck.check_props()
     ck.check_translation("pstring")
+    ck.check_translation("numpy")      # the in-place butterfly of matrix_decomposition_diagonal = Model/Decomp.dbfly_iter (every n >= 1)
     nmax = 4 if ck.quick else 6
     cases = []
     for _ in range(400 if ck.quick else 3000):
